@@ -73,8 +73,20 @@ both_families! {
 			let (name, got, want): (&str, String, String) = match a {
 				0 => ("last()", format!("{:?}", s(fresh().last())), format!("{:?}", rest.last())),
 				1 => ("count()", format!("{}", fresh().count()), format!("{}", rest.len())),
-				2 => ("nth(1)", format!("{:?}", s(fresh().nth(1))), format!("{:?}", rest.get(1))),
-				3 => ("nth_back(1)", format!("{:?}", s(fresh().nth_back(1))), format!("{:?}", rest.iter().rev().nth(1))),
+				2 => {
+					// nth(k) for EVERY k up to two past the end
+					// (for very long paths: the first 12 and the last 6 values of k)
+					let ks: Vec<usize> = (0..rest.len() + 2).filter(|k| *k < 12 || *k + 6 >= rest.len() + 2).collect();
+					let got: Vec<Option<String>> = ks.iter().map(|&k| s(fresh().nth(k))).collect();
+					let want: Vec<Option<String>> = ks.iter().map(|&k| rest.get(k).cloned()).collect();
+					("nth(k) for every k", format!("{:?}", got), format!("{:?}", want))
+				}
+				3 => {
+					let ks: Vec<usize> = (0..rest.len() + 2).filter(|k| *k < 12 || *k + 6 >= rest.len() + 2).collect();
+					let got: Vec<Option<String>> = ks.iter().map(|&k| s(fresh().nth_back(k))).collect();
+					let want: Vec<Option<String>> = ks.iter().map(|&k| rest.iter().rev().nth(k).cloned()).collect();
+					("nth_back(k) for every k", format!("{:?}", got), format!("{:?}", want))
+				}
 				4 => ("collect()", format!("{:?}", fresh().map(|x| x.as_str().to_string()).collect::<Vec<_>>()), format!("{:?}", rest)),
 				5 => ("rev().collect()", format!("{:?}", fresh().rev().map(|x| x.as_str().to_string()).collect::<Vec<_>>()), format!("{:?}", rest.iter().rev().cloned().collect::<Vec<_>>())),
 				6 => {
@@ -318,8 +330,28 @@ impl Prop for C12 {
 				}
 			}
 		}
+		// periodic paths ("a/" x k, "abc/" x k, ...) of 8 KiB .. 64 KiB: per-lane counters overflow only when one
+		// lane sees a delimiter in every row of a block
 		if ok {
-			vec!["runs of '/' of every length 0..=1100 at every offset 0..8", "all strings <= L1 over {a,/,.} x all schedules", "all strings <= L2 items over {a,/,é,:,%41} x all schedules", "every ucschar scalar value inside / alone as / at the end of a segment"]
+			let mut gi = 0usize;
+			'periodic: for period in [1usize, 2, 3, 4, 5, 7, 8, 15, 16, 31, 32, 33, 64] {
+				for total in [4096usize, 8190, 8192, 8200, 10_000, 16_384, 16_400, 32_768, 40_000, 65_536, 65_600] {
+					gi += 1;
+					if gi % nshards != shard {
+						continue;
+					}
+					let unit = format!("{}/", "a".repeat(period - 1));
+					let s = unit.repeat(total / period + 1);
+					let fam = if gi % 2 == 0 { Fam::Uri } else { Fam::Iri };
+					if !f(Case { fam, path: s, schedule: Some(vec![true, false]) }, true) {
+						ok = false;
+						break 'periodic;
+					}
+				}
+			}
+		}
+		if ok {
+			vec!["periodic paths (13 periods x 11 total lengths 4 KiB .. 64 KiB)", "runs of '/' of every length 0..=1100 at every offset 0..8", "all strings <= L1 over {a,/,.} x all schedules", "all strings <= L2 items over {a,/,é,:,%41} x all schedules", "every ucschar scalar value inside / alone as / at the end of a segment"]
 		} else {
 			vec![]
 		}
